@@ -112,6 +112,7 @@ var wideScenarios = [][]string{
 	{"image", "imagefloat", "imgpos", "imgwrap", "imgresize", "table", "cellimgcfg", "cellimgfile"},
 	{"table", "rowprops", "rowprops", "tbllayout", "customtblstyle", "copytable", "celltext", "delrows"},
 	{"createtable", "mergev", "delcols", "tblread", "cleartable", "celltext"},
+	{"table", "vmergefields", "celltext", "vmergefields", "structprops"},
 	{"pagesettings", "para", "multilist", "restartnum", "listitem", "docread", "pagesettings"},
 }
 
@@ -238,7 +239,7 @@ func (tr *tracker) aim(t *rapid.T, o *ops.Op) {
 		}
 		o.I[0], o.I[1], o.I[2], o.I[3] = ti, row(), a, b
 		tr.merged = append(tr.merged, [3]int{ti, o.I[1], a})
-	case "mergev":
+	case "mergev", "vmergefields":
 		a, b := span(d.r, "mv")
 		o.I[0], o.I[1], o.I[2], o.I[3] = ti, a, b, col()
 		tr.merged = append(tr.merged, [3]int{ti, a, o.I[3]})
@@ -990,6 +991,9 @@ func run(c Case) *kit.Result {
 			feat["struct-only-table-property"] = true
 		case n.Is(canon.W, "vMerge"):
 			feat["merge-v"] = true
+			if n.A(canon.W, "val") == "" {
+				feat["merge-v-without-val"] = true
+			}
 		case n.Is(canon.W, "br") && n.Parent.Is(canon.W, "r"):
 			feat["run-break"] = true
 		case n.Is(canon.WP, "anchor"):
@@ -1506,7 +1510,7 @@ func TestC03(t *testing.T) {
 			"and >=2 distinct successful formatting setters and >=2 cycles; distinct = distinct set of (op kind, outcome) plus cycle count. " +
 			"Widened: the histories also call ResizeImage / SetImagePosition / SetImageWrapText, AddCellImage (explicit and detected format) / AddCellImageFromFile, SetTablePageBreak, SetRowKeepWithNext, TableRowProperties.SetCantSplit / SetTblHeader, " +
 			"SetTableLayout, DeleteRows / DeleteColumns, ClearTable, CopyTable + Body.AddElement, CreateTable + Body.AddElement, CreateCustomTableStyle, every read accessor and iterator of Table and Document, CreateMultiLevelList, RestartNumbering, SetPageSettings with every field drawn on its own (defaults included), " +
-			"Document.Save of the live document, field runs (CreateHyperlinkField / CreatePageRefField) in body paragraphs, tblInd / noWrap / hideMark through the struct fields; one text in five is of an edge class (tab, newline, CR, NBSP, U+2028, U+FEFF ... rather than spaces at the ends; astral or combining characters first / last / just before a round length; blanks only; markup look-alikes); " +
+			"Document.Save of the live document, field runs (CreateHyperlinkField / CreatePageRefField) in body paragraphs, tblInd / noWrap / hideMark through the struct fields, vertical merges set through the field TableCellProperties.VMerge with continuation cells that carry w:val=\"continue\" or no w:val (op vmergefields); one text in five is of an edge class (tab, newline, CR, NBSP, U+2028, U+FEFF ... rather than spaces at the ends; astral or combining characters first / last / just before a round length; blanks only; markup look-alikes); " +
 			"6 % of the tables have 9-12 columns or rows and 1 % 16-65 columns, with merges spanning 10 or more columns; 8 % of the histories hold a reopen (save, Open, the opened document is edited further) and 3 % put 9-13 pictures and some list items before it and 2-5 after it; in about 10 % a second document is built alternately with the first and saved / opened between its saves and opens; " +
 			"a quarter of the cycle chains save through Document.Save(path) to one file name instead of ToBytes. " +
 			"(b, ~2 % quick / ~4 % thorough, plus three hand-written cases in every run) size classes: a short history of the same kind holding one or two parts of unusual size - a picture of 4 KiB .. 18 MiB (thorough: 36 MiB) " +
@@ -1532,7 +1536,7 @@ func TestC03(t *testing.T) {
 			"parts-differ": 0.3, "parts-differ:pborder4": 0.08, "parts-differ:cellborders6": 0.04, "parts-differ:tblborders6": 0.04, "parts-differ:ptabs": 0.05, "parts-differ:runfonts": 0.04,
 			"parts-differ:tcmar": 0.02, "parts-differ:tblcellmar": 0.03, "parts-differ:cellpborder4": 0.02,
 			"two-documents-alternately": 0.04, "reopen-in-history": 0.03, "picture-added-after-reopen": 0.015, "reopen-then-only-additions": 0.015, "feat:cols>=10": 0.02, "feat:gridspan>=10": 0.004,
-		"feat:numid>=10": 0.01, "feat:field-run-in-body": 0.01, "feat:struct-only-table-property": 0.01, "str:edge:lead-nonspace-blank": 0.08, "str:edge:trail-nonspace-blank": 0.08,
+		"feat:numid>=10": 0.01, "feat:field-run-in-body": 0.01, "feat:struct-only-table-property": 0.01, "feat:merge-v-without-val": 0.01, "str:edge:lead-nonspace-blank": 0.08, "str:edge:trail-nonspace-blank": 0.08,
 		"str:edge:blank-only": 0.05, "str:edge:lead-astral": 0.05, "str:edge:trail-astral": 0.05, "str:edge:multibyte-at-round-length": 0.04, "op:rowprops": 0.03, "op:copytable": 0.03,
 		"op:createtable": 0.04, "op:pagesettings": 0.04, "op:savefile": 0.03, "op:cellimgcfg": 0.03, "op:delrows": 0.02, "op:delcols": 0.015, "op:multilist": 0.03, "op:imgpos": 0.02,
 		"op:imgwrap": 0.02, "op:imgresize": 0.02, "op:tblread": 0.02, "op:customtblstyle": 0.03, "foreign:edited-after-open": 0.015,
